@@ -60,7 +60,15 @@ Fixpoint lookup (s : string) (t : list (string * fclass)) : option fclass :=
 (** Kinds of write the translator distinguishes; the strong ones re-initialise
     the whole field on every path through the analysed block. *)
 Definition strong_kind (k : string) : bool :=
-  mem k ["set"; "clear"; "fill"; "copy"; "call"].
+  mem k ["set"; "clear"; "fill"; "copy"].
+
+(** A field handed to a callee ([F(&x.f)], [F(x.f[:])], [x.f.M()], kind "call") counts
+    as re-initialised only when the callee is one of the reset functions the model
+    names for that field ([allow]: field, callee as printed in the regenerated call
+    list) - a callee that merely reads the field (ParseQuant(&segHdr)) does not. *)
+Definition delegated (w : list (string * string)) (calls : list string) (allow : list (string * string)) : list string :=
+  map fst (filter (fun p => String.eqb (snd p) "call"
+                            && existsb (fun a => String.eqb (fst a) (fst p) && mem (snd a) calls) allow) w).
 
 Definition strongly_written (w : list (string * string)) : list string :=
   map fst (filter (fun p => strong_kind (snd p)) w).
